@@ -565,7 +565,7 @@ func TestHonest(t *testing.T) {
 		for _, sg := range h1.Layout {
 			kinds[dirName[sg.Dir]+"/"+sg.Kind] = true
 		}
-		col.Record("honest", s, ev.OK(false, "reproducible", "mode="+s.Mode, "ot="+s.OT))
+		col.Count("honest-sessions-reproducible/"+s.Mode+"/"+s.OT, 1)
 	}
 	var ks []string
 	for k := range kinds {
